@@ -62,8 +62,8 @@ theorem lemma_versioned_cases (a : Bool) (f : Facts) (p : Prog) : Exit a f p (ve
   | some rt =>
     simp only
     split
-    · exact Or.inr (Or.inl ⟨rt, rfl, Or.inl rfl⟩)
-    · exact Or.inl ⟨rt, _, _, _, rfl, Or.inl ⟨rfl, by simp⟩⟩
+    · exact Or.inr (Or.inl ⟨rt, rfl, Or.inl hc⟩)
+    · exact Or.inl ⟨rt, _, _, _, rfl, Or.inl ⟨rfl, Or.inr (Or.inr (Or.inr (Or.inl hc)))⟩⟩
   | none =>
     simp only
     cases hr : f.vRoute with
@@ -74,8 +74,8 @@ theorem lemma_versioned_cases (a : Bool) (f : Facts) (p : Prog) : Exit a f p (ve
     | some rt =>
       simp only
       split
-      · exact Or.inr (Or.inl ⟨rt, rfl, Or.inr rfl⟩)
-      · exact Or.inl ⟨rt, _, _, _, rfl, Or.inl ⟨rfl, by simp⟩⟩
+      · exact Or.inr (Or.inl ⟨rt, rfl, Or.inr hr⟩)
+      · exact Or.inl ⟨rt, _, _, _, rfl, Or.inl ⟨rfl, Or.inr (Or.inr (Or.inr (Or.inr hr)))⟩⟩
 
 theorem lemma_dispatch_cases (a : Bool) (f : Facts) (p : Prog) : Exit a f p (dispatch a f p) := by
   unfold dispatch
@@ -110,7 +110,7 @@ theorem lemma_dispatch_handlers (a : Bool) (f : Facts) (p : Prog) : ∀ e ∈ (d
 theorem lemma_dispatch_label_some (f : Facts) (p : Prog) : ∃ l, (dispatch false f p).label = some l := by
   rcases lemma_dispatch_cases false f p with ⟨rt, c, v, l, hd, _⟩ | ⟨rt, hd, _⟩ | ⟨lab, hd, hl⟩
   · rw [hd]; exact ⟨l, rfl⟩
-  · rw [hd]; exact ⟨_, by simp [gone]⟩
+  · rw [hd]; exact ⟨rt.pattern, by simp [gone]⟩
   · rw [hd, (lemma_notFound_handlers _ _ _).2]
     rcases hl with rfl | ⟨h, _⟩
     · exact ⟨_, rfl⟩
@@ -120,18 +120,20 @@ theorem lemma_dispatch_label_some (f : Facts) (p : Prog) : ∃ l, (dispatch fals
 theorem lemma_dispatch_label (f : Facts) (p : Prog) (pats : List Bytes) (h : RoutesIn f pats) :
     ∃ l, (dispatch false f p).label = some l ∧ labelOK pats l = true := by
   obtain ⟨h1, h2, h3, h4, h5, h6⟩ := h
-  have hs : labelOK pats sNotFound = true := by simp [labelOK, sentinels, sNotFound]
+  have hs : labelOK pats sNotFound = true := by
+    have : sNotFound ∈ sentinels := by decide
+    simp [labelOK, this]
   have hm : ∀ l, l ∈ pats → labelOK pats l = true := by intro l hl; simp [labelOK, hl]
   rcases lemma_dispatch_cases false f p with ⟨rt, c, v, l, hd, hsrc⟩ | ⟨rt, hd, hsrc⟩ | ⟨lab, hd, hl⟩
   · rw [hd]
     refine ⟨l, rfl, hm l ?_⟩
-    rcases hsrc with ⟨rfl, hs1 | hs2 | hs3 | hs4 | hs5⟩ | ⟨rfl, hs6⟩
-    · exact h1 _ hs1
-    · exact h2 _ hs2
-    · exact h4 _ hs3
-    · exact h5 _ hs4
-    · exact h6 _ hs5
-    · exact h3 _ hs6
+    rcases hsrc with ⟨hl, hs1 | hs2 | hs3 | hs4 | hs5⟩ | ⟨hl, hs6⟩
+    · rw [hl]; exact h1 _ hs1
+    · rw [hl]; exact h2 _ hs2
+    · rw [hl]; exact h4 _ hs3
+    · rw [hl]; exact h5 _ hs4
+    · rw [hl]; exact h6 _ hs5
+    · rw [hl]; exact h3 _ hs6
   · rw [hd]
     refine ⟨rt.pattern, by simp [gone], hm _ ?_⟩
     rcases hsrc with h | h
@@ -141,6 +143,11 @@ theorem lemma_dispatch_label (f : Facts) (p : Prog) (pats : List Bytes) (h : Rou
     rcases hl with rfl | ⟨h, _⟩
     · exact ⟨_, rfl, hs⟩
     · cases h
+
+theorem lemma_getLast {α : Type} (a x : α) (hs : List α) : (a :: (hs ++ [x])).getLast? = some x := by
+  induction hs generalizing a with
+  | nil => rfl
+  | cons b r ih => rw [List.cons_append, List.getLast?_cons_cons]; exact ih b
 
 theorem lemma_filter_handlers (hs : List MEv) (h : ∀ e ∈ hs, isHandler e = true) :
     hs.filter Obs.isStart = [] ∧ hs.filter Obs.isWrap = [] ∧ hs.filter Obs.isEnd = [] ∧
@@ -171,14 +178,7 @@ theorem serve_meets_spec (f : Facts) (p : Prog) (pats : List Bytes) (h : RoutesI
   · simp [Obs.isStart, Obs.isWrap, Obs.isEnd, List.filter_cons, f1]
     intro e he; have := hh e he; cases e <;> simp_all [isHandler]
   · simp [Obs.isStart, Obs.isWrap, Obs.isEnd, List.filter_append, f1, f2, f3, List.filter_cons, hlab,
-      List.getLast?_cons_cons, List.getLast?_append]
-
-/-- non-vacuity of `RoutesIn`: a versioned request that finds no route in its version tree -/
-example : RoutesIn { obs := true, live := true, useCompiled := false, hasStatic := false, lookupStatic := none,
-    matchDynamic := none, tree := true, treeCompiled := false, treeStatic := none, treeRoute := none,
-    versionEngine := true, vcTree := true, version := "v1".toList, vCache := none, vRoute := none, sunset := false,
-    allowed := false, noRoute := false, detected := "v1".toList, path := "/vmiss".toList } ["/vs".toList] := by
-  simp [RoutesIn]
+      lemma_getLast]
 
 /-- `#OnRequestEnd == #OnRequestStart(state != nil)`, per request -/
 theorem end_count_eq_live_starts (f : Facts) (p : Prog) :
@@ -216,10 +216,10 @@ theorem gauge_zero_spans_balanced (hist : List (Facts × Prog)) :
     simp only [hl, endG, pre]
     have happ : ∀ (a b : List MEv) (t : Tele), t.run (a ++ b) = (t.run a).run b := by
       intro a b t; simp [Tele.run, List.foldl_append]
+    rw [happ, happ, hrun _ _ hh]
     simp only [Tele.quiescent, Bool.and_eq_true, beq_iff_eq] at ht ⊢
     cases hobs : f.obs <;> cases hlive : f.live <;>
-      simp [happ, hrun _ _ hh, Tele.run, Tele.step, ht.1, ht.2]
-    omega
+      simp [Tele.run, Tele.step, ht.1, ht.2]
   generalize hq : ({} : Tele) = t0
   have h0 : t0.quiescent = true := by subst hq; rfl
   clear hq
@@ -259,6 +259,10 @@ def fSunsetStatic : Facts :=
 def fSunsetParam : Facts :=
   { fVerMiss with version := "v0".toList, vRoute := some ⟨25, "/vd/:id".toList⟩, sunset := true, path := "/vd/7".toList }
 
+/-- non-vacuity of `RoutesIn` (hypothesis of `serve_meets_spec`): the three K08 requests satisfy it -/
+example : RoutesIn fVerMiss ["/vs".toList] ∧ RoutesIn fSunsetStatic ["/vs".toList] ∧ RoutesIn fSunsetParam ["/vd/:id".toList] := by
+  simp [RoutesIn, fVerMiss, fSunsetStatic, fSunsetParam]
+
 /-- K08 witnesses (replayed on the implementation: corpus/C08/k08.case): start without end on the three exits -/
 theorem asIs_witness_not_found : specOK true true ["/vs".toList] (seen fVerMiss (serveAsIs fVerMiss (.explicit 200 5))) = false := by decide
 theorem asIs_witness_sunset_static : specOK true true ["/vs".toList] (seen fSunsetStatic (serveAsIs fSunsetStatic (.explicit 200 5))) = false := by decide
@@ -270,14 +274,13 @@ theorem asIs_gauge_drifts :
 /-! ### the wrapper reports what the client received -/
 
 theorem lemma_rw_inv (ops : List WOp) (rw : RW)
-    (hinv : (rw.written = false → rw.under = {} ∧ rw.size = 0) ∧
-            (rw.written = true → rw.under.status = some rw.StatusCode ∧ rw.StatusCode ≠ 0 ∧ rw.statusCode ≠ 0) ∧
+    (hinv : (rw.written = false → rw.under = {} ∧ rw.size = 0 ∧ rw.statusCode = 0) ∧
+            (rw.written = true → rw.under.status = some rw.StatusCode ∧ rw.statusCode ≠ 0) ∧
             rw.under.size = rw.size)
     (hvalid : ∀ c, WOp.header c ∈ ops → c ≠ 0) :
-    let r := rw.run ops
-    (r.written = false → r.under = {} ∧ r.size = 0) ∧
-    (r.written = true → r.under.status = some r.StatusCode ∧ r.StatusCode ≠ 0 ∧ r.statusCode ≠ 0) ∧
-    r.under.size = r.size := by
+    ((rw.run ops).written = false → (rw.run ops).under = {} ∧ (rw.run ops).size = 0 ∧ (rw.run ops).statusCode = 0) ∧
+    ((rw.run ops).written = true → (rw.run ops).under.status = some (rw.run ops).StatusCode ∧ (rw.run ops).statusCode ≠ 0) ∧
+    (rw.run ops).under.size = (rw.run ops).size := by
   induction ops generalizing rw with
   | nil => exact hinv
   | cons op rest ih =>
@@ -288,63 +291,31 @@ theorem lemma_rw_inv (ops : List WOp) (rw : RW)
       | header c =>
         have hc : c ≠ 0 := hvalid c (by simp)
         cases hw : rw.written
-        · obtain ⟨hu, hs⟩ := h1 hw
+        · obtain ⟨hu, hs, _⟩ := h1 hw
           simp [RW.step, hw, hu, hs, Wire.step, RW.StatusCode, hc]
-        · simp [RW.step, hw]; exact ⟨fun h => absurd hw (by simp [h]), h2, h3⟩
+        · have : rw.step (.header c) = rw := by simp [RW.step, hw]
+          rw [this]; exact ⟨h1, h2, h3⟩
       | write n =>
         cases hw : rw.written
-        · obtain ⟨hu, hs⟩ := h1 hw
+        · obtain ⟨hu, hs, _⟩ := h1 hw
           simp [RW.step, hw, hu, hs, Wire.step, RW.StatusCode]
-        · obtain ⟨hst, hne, hne'⟩ := h2 hw
-          simp [RW.step, hw, Wire.step, hst, h3, RW.StatusCode, hne'] at *
-          exact ⟨hst, hne⟩
+        · obtain ⟨hst, hne⟩ := h2 hw
+          simp [RW.step, hw, Wire.step, hst, h3, RW.StatusCode, hne] at *
     · intro c hc; exact hvalid c (by simp [hc])
 
 /-- **status and size truthful**: for every sequence of WriteHeader/Write calls with valid status codes (net/http
     panics on code 0) the wrapper's StatusCode()/Size() equal the status and the number of body bytes the client
     received — first WriteHeader wins, implicit 200 on a bare Write, 200 and 0 bytes when nothing is written -/
 theorem status_size_truthful (ops : List WOp) (hvalid : ∀ c, WOp.header c ∈ ops → c ≠ 0) :
-    let r := (({} : RW).run ops)
-    r.StatusCode = r.under.clientStatus ∧ r.size = r.under.size := by
-  have := lemma_rw_inv ops {} ⟨by simp, by simp, by rfl⟩ hvalid
-  obtain ⟨h1, h2, h3⟩ := this
+    (({} : RW).run ops).StatusCode = (({} : RW).run ops).under.clientStatus ∧
+    (({} : RW).run ops).size = (({} : RW).run ops).under.size := by
+  obtain ⟨h1, h2, h3⟩ := lemma_rw_inv ops {} ⟨by simp, by simp, by rfl⟩ hvalid
+  refine ⟨?_, h3.symm⟩
   cases hw : (({} : RW).run ops).written
-  · obtain ⟨hu, hs⟩ := h1 hw
-    simp only [hu, hs]
-    have : (({} : RW).run ops).statusCode = 0 ∨ True := Or.inr trivial
-    refine ⟨?_, rfl⟩
-    -- nothing written: statusCode is still 0
-    have hz : ∀ (ops : List WOp) (rw : RW), rw.written = false → rw.statusCode = 0 → (rw.run ops).written = false → (rw.run ops).statusCode = 0 := by
-      intro ops
-      induction ops with
-      | nil => intro rw _ h _; exact h
-      | cons op rest ih =>
-        intro rw hw0 hs0 hend
-        simp only [RW.run, List.foldl_cons] at hend ⊢
-        have hmono : ∀ (ops : List WOp) (rw : RW), rw.written = true → (rw.run ops).written = true := by
-          intro ops
-          induction ops with
-          | nil => intro rw h; exact h
-          | cons op rest ih2 =>
-            intro rw h
-            simp only [RW.run, List.foldl_cons]
-            apply ih2
-            cases op <;> simp [RW.step, h]
-        cases op with
-        | header c =>
-          have : (rw.step (.header c)).written = true := by simp [RW.step, hw0]
-          have := hmono rest _ this
-          simp [RW.run] at this
-          rw [this] at hend; cases hend
-        | write n =>
-          have : (rw.step (.write n)).written = true := by simp [RW.step, hw0]
-          have := hmono rest _ this
-          simp [RW.run] at this
-          rw [this] at hend; cases hend
-    have := hz ops {} rfl rfl hw
-    simp [RW.StatusCode, this, Wire.clientStatus]
-  · obtain ⟨hst, _, _⟩ := h2 hw
-    exact ⟨by simp [Wire.clientStatus, hst], h3.symm⟩
+  · obtain ⟨hu, _, hz⟩ := h1 hw
+    simp [RW.StatusCode, hz, hu, Wire.clientStatus]
+  · obtain ⟨hst, _⟩ := h2 hw
+    simp [Wire.clientStatus, hst]
 
 /-- non-vacuity: the probe programs are valid op sequences and exercise every branch of the wrapper -/
 example : (({} : RW).run (Prog.twice 201 17).ops).StatusCode = 201 ∧ (({} : RW).run (Prog.twice 201 17).ops).size = 17 := by decide
